@@ -276,6 +276,8 @@ func (x *Explorer) step(st *State) {
 	case *ssa.MakeChan:
 		ref := st.newRef()
 		f.env[i] = VInt{T: ref}
+		// the capacity is a fact about the channel value (chanCap in contracts)
+		st.assume(Eq(UF("chancap", SInt, ref), asInt(x.val(st, f, i.Size))))
 		f.pc++
 	case *ssa.MakeInterface:
 		f.env[i] = x.makeIface(st, x.val(st, f, i.X), i.X.Type())
